@@ -272,10 +272,19 @@ func ruleNextIDMax(p *Prog, r *Res, rule string) {
 				target := exprString(p.Fset, l)
 				key := fmt.Sprintf("%s %s = … MaxStreamID() …", f.Key(), target)
 				// enclosing range over a whole reader list
-				var loop *ast.RangeStmt
+				type listLoop struct {
+					X    ast.Expr
+					Body *ast.BlockStmt
+				}
+				var loop *listLoop
 				for _, par := range parents {
 					if rs, ok := par.(*ast.RangeStmt); ok {
-						loop = rs
+						loop = &listLoop{rs.X, rs.Body}
+					}
+					if fs, ok := par.(*ast.ForStmt); ok {
+						if lx := countedLoopOver(info, fs); lx != nil {
+							loop = &listLoop{lx, fs.Body}
+						}
 					}
 				}
 				if loop == nil {
@@ -441,6 +450,34 @@ func ruleC08LookupTotal(p *Prog, r *Res) {
 							found = true
 						}
 					}
+				}
+				// … or behind a guard `if res == nil { continue }` earlier in the same block
+				for qi := len(ps) - 1; qi >= 0 && !found; qi-- {
+					blk, ok := ps[qi].(*ast.BlockStmt)
+					if !ok {
+						continue
+					}
+					for _, st := range blk.List {
+						if st.Pos() >= br.Pos() {
+							break
+						}
+						ifs, ok := st.(*ast.IfStmt)
+						if !ok || ifs.Else != nil || len(ifs.Body.List) == 0 {
+							continue
+						}
+						last := ifs.Body.List[len(ifs.Body.List)-1]
+						leaves := false
+						if b2, ok := last.(*ast.BranchStmt); ok && b2.Tok == token.CONTINUE {
+							leaves = true
+						}
+						if _, ok := last.(*ast.ReturnStmt); ok {
+							leaves = true
+						}
+						if be, ok := ast.Unparen(ifs.Cond).(*ast.BinaryExpr); ok && leaves && be.Op == token.EQL && resObj != nil && identObj(info, be.X) == resObj && exprString(p.Fset, be.Y) == "nil" {
+							found = true
+						}
+					}
+					break
 				}
 				if !found {
 					bad = fmt.Sprintf("%s at line %d leaves the scan although no stream was found", br.Tok, lineOf(p.Fset, br))
@@ -892,4 +929,49 @@ func receivesMaxID(p *Prog, fn *Fn, v types.Object) bool {
 		})
 	}
 	return derived[v]
+}
+
+// countedLoopOver: `for i := 0; i < len(L); i++` visits every element of L; returns L (nil for other loops).
+func countedLoopOver(info *types.Info, fs *ast.ForStmt) ast.Expr {
+	init, ok := fs.Init.(*ast.AssignStmt)
+	if !ok || init.Tok != token.DEFINE || len(init.Lhs) != 1 || len(init.Rhs) != 1 {
+		return nil
+	}
+	iv := identObj(info, init.Lhs[0])
+	if tv, ok := info.Types[init.Rhs[0]]; !ok || tv.Value == nil || tv.Value.String() != "0" || iv == nil {
+		return nil
+	}
+	post, ok := fs.Post.(*ast.IncDecStmt)
+	if !ok || post.Tok != token.INC || identObj(info, post.X) != iv {
+		return nil
+	}
+	be, ok := ast.Unparen(fs.Cond).(*ast.BinaryExpr)
+	if !ok || be.Op != token.LSS || identObj(info, be.X) != iv {
+		return nil
+	}
+	c, ok := ast.Unparen(be.Y).(*ast.CallExpr)
+	if !ok || !isBuiltin(info, c, "len") || len(c.Args) != 1 {
+		return nil
+	}
+	// the counter is not changed in the body
+	changed := false
+	ast.Inspect(fs.Body, func(x ast.Node) bool {
+		switch st := x.(type) {
+		case *ast.AssignStmt:
+			for _, l := range st.Lhs {
+				if identObj(info, l) == iv {
+					changed = true
+				}
+			}
+		case *ast.IncDecStmt:
+			if identObj(info, st.X) == iv {
+				changed = true
+			}
+		}
+		return true
+	})
+	if changed {
+		return nil
+	}
+	return c.Args[0]
 }
